@@ -1,4 +1,5 @@
 import Xp.Gen.Conditions
+import Xp.Gen.C05Skel
 /-
 C05 model: how the XR reconciler derives status conditions
 (internal/controller/apiextensions/composite/reconciler.go: Reconcile error path,
@@ -22,7 +23,7 @@ structure Res where
   name : String
   synced : Bool
   ready : Bool
-  deriving Repr
+  deriving DecidableEq, Repr
 
 inductive Err where
   | none | generic | invalid | conflict
@@ -155,6 +156,166 @@ def reconcileCall (old : St) (c : Call) : Option St :=
       if p.conflictAware && e == .conflict then none
       else if p == .compose then some (composeError old c.fn)
       else some { old with conds := setCond old.conds reconcileError }
+
+/-! ### the deletion branch of Reconcile (meta.WasDeleted)
+
+After the pause check, an XR with a deletion timestamp takes its own branch: Ready := Deleting,
+UnpublishConnection, RemoveFinalizer (conflict: requeue, nothing written), Synced := ReconcileSuccess.
+When the composite finalizer was the last one the API server removes the object with it and the
+final status update finds nothing. -/
+
+inductive DPhase where
+  | unpublish | removeFinalizer
+  deriving DecidableEq, Repr
+
+def deleting : Cond := ⟨"Ready", "False", "Deleting"⟩
+
+structure DelCall where
+  /-- the first Get fails (any class): the reconcile returns at once -/
+  getFails : Bool
+  paused : Bool
+  fault : Option (DPhase × EC)
+  /-- the final status update is not applied (answered with an error, or the XR was edited in between) -/
+  lost : Bool
+  deriving Repr
+
+/-- an XR being deleted, as far as its conditions are concerned -/
+structure DelXR where
+  st : St
+  /-- it still carries the composite finalizer (RemoveFinalizer issues an Update only then) -/
+  fin : Bool
+  /-- another finalizer holds the object after ours is gone -/
+  held : Bool
+  deriving Repr
+
+/-- REGENERATED FROM THE SOURCE: does `Reconcile` set the Deleting condition a second time (after
+RemoveFinalizer)? In the tree as it is it does not (see `reconcileDeleted`). -/
+def reassertsDeleting : Bool := decide (Xp.Gen.c05SkelReconcile.count "xpv1.Deleting" ≥ 2)
+
+/-- the status the deletion branch stores; none = no status write took effect.
+
+`re` = Deleting is set again after RemoveFinalizer. THE CODE AS IT IS DOES NOT (`re = false`):
+RemoveFinalizer's Update answers with the stored object, which replaces the XR held in memory -
+status included - so the Deleting condition set before is gone when ReconcileSuccess is added and
+the status is stored: the XR keeps the Ready condition it had. (It matters only when another
+finalizer - foreground deletion, a Usage - keeps the object alive.) -/
+def reconcileDeleted (re : Bool) (old : St) (fin : Bool) (c : DelCall) : Option St :=
+  if c.getFails || c.lost then none else
+  if c.paused then some { old with conds := setCond old.conds reconcilePaused } else
+  let st1 : St := { old with conds := setCond old.conds deleting }
+  match c.fault with
+  | some (.unpublish, _) => some { st1 with conds := setCond st1.conds reconcileError }
+  | some (.removeFinalizer, e) =>
+    -- without the finalizer no Update is issued (nothing can fail); APIFinalizer.RemoveFinalizer
+    -- ignores a NotFound answer (which leaves the XR in memory alone)
+    if !fin || e == .notFound then some { st1 with conds := setCond st1.conds reconcileSuccess }
+    else if e == .conflict then none
+    else some { st1 with conds := setCond st1.conds reconcileError }
+  | none =>
+    if fin && !re then some { old with conds := setCond old.conds reconcileSuccess }   -- the Update reset the XR in memory
+    else some { st1 with conds := setCond st1.conds reconcileSuccess }
+
+/-- RemoveFinalizer's Update took effect -/
+def DelCall.removes (c : DelCall) (fin : Bool) : Bool :=
+  fin && !c.getFails && !c.paused && c.fault.isNone
+
+/-- one reconcile of an XR being deleted: what is stored afterwards (none = the object is gone) and
+whether the reconcile's status update took effect -/
+def delStep (re : Bool) (x : Option DelXR) (c : DelCall) : Option DelXR × Bool :=
+  match x with
+  | none => (none, false)
+  | some x =>
+    if c.removes x.fin then
+      if x.held then
+        -- the Update that removed the finalizer returned the stored object: the status update follows
+        (match reconcileDeleted re x.st x.fin c with
+         | some st => (some { x with st := st, fin := false }, true)
+         | none => (some { x with fin := false }, false))
+      else (none, false)   -- the object went away with its last finalizer: the status update finds nothing
+    else
+      match reconcileDeleted re x.st x.fin c with
+      | some st => (some { x with st := st }, true)
+      | none => (some x, false)
+
+def delTrace (re : Bool) : Option DelXR → List DelCall → List (Option St × Bool)
+  | _, [] => []
+  | x, c :: cs =>
+    let r := delStep re x c
+    (r.1.map (·.st), r.2) :: delTrace re r.1 cs
+
+/-! ### declared call skeletons (tie to the source, DESIGN 2.3 a)
+
+The calls of the mirrored Go functions, in source order, as the definitions above read them.
+`Xp.Gen.c05Skel*` are the same lists extracted by go/ast from the CURRENT tree on every check
+run; `Xp.Props.C05` states that they are equal (`skeleton_*`). Inserting, removing or reordering
+a phase call, an error-class test, a condition write or a status update in one of these functions
+breaks an obligation before any scenario is run. The skeleton of `Reconcile` is a FUNCTION of the
+model (`Phase.callName`, `Phase.conflictAware`): an `IsConflict` test added to or removed from a
+phase changes the regenerated list but not the model's. -/
+
+/-- the Go call a phase stands for -/
+def Phase.callName : Phase → String
+  | .get => "client.Get"
+  | .finalizer => "composite.AddFinalizer"
+  | .select => "composite.SelectComposition"
+  | .fetch => "revision.Fetch"
+  | .validate => "revision.Validate"
+  | .configure => "composite.Configure"
+  | .compose => "resource.Compose"
+  | .publish => "composite.PublishConnection"
+
+/-- `xr.SetConditions(xpv1.ReconcileError(err)); return ..., r.client.Status().Update(ctx, xr)`:
+the tail of every failing phase (model: `setCond old.conds reconcileError`, then the write that
+`Call.lost` may drop) -/
+def skelErrTail : List String := ["xr.SetConditions", "xpv1.ReconcileError", "client.Status.Update"]
+
+/-- the calls of one phase of `Reconcile`, as `reconcileCall` reads them -/
+def Phase.skel (p : Phase) : List String :=
+  match p with
+  | .get => [p.callName]                       -- an error returns at once: nothing is written
+  | .compose =>
+    [p.callName, "kerrors.IsConflict",         -- conflictAware: requeue, nothing written
+     "kerrors.IsInvalid",                      -- not modelled: only the condition MESSAGE depends on it
+     "xr.SetConditions", "xpv1.ReconcileError",  -- composeError: setCond old.conds reconcileError
+     "handleCommonCompositionResult",          -- composeError: applyFnConds
+     "xr.GetConditions", "xpv1.IsSystemConditionType", "xr.SetConditions",  -- composeError: markUnknown
+     "client.Status.Update"]
+  | p => [p.callName] ++ (if p.conflictAware then ["kerrors.IsConflict"] else []) ++ skelErrTail
+
+/-- the pause branch: `setCond old.conds reconcilePaused` and the status update -/
+def skelPaused : List String := ["meta.IsPaused", "xr.SetConditions", "xpv1.ReconcilePaused", "client.Status.Update"]
+
+/-- the deletion branch (meta.WasDeleted): Deleting, UnpublishConnection, RemoveFinalizer
+(conflict-aware), ReconcileSuccess - mirrored by `reconcileDeleted` below -/
+def skelDeleted : List String :=
+  ["meta.WasDeleted", "xr.SetConditions", "xpv1.Deleting",
+   "composite.UnpublishConnection"] ++ skelErrTail ++
+  ["composite.RemoveFinalizer", "kerrors.IsConflict"] ++ skelErrTail ++
+  (if reassertsDeleting then ["xr.SetConditions", "xpv1.Deleting", "xpv1.ReconcileSuccess", "client.Status.Update"]
+   else ["xr.SetConditions", "xpv1.ReconcileSuccess", "client.Status.Update"])
+
+/-- composite `Reconciler.Reconcile` -/
+def skelReconcile : List String :=
+  Phase.get.skel ++ skelPaused ++ skelDeleted ++
+  [Phase.finalizer, .select, .fetch, .validate, .configure, .compose].flatMap Phase.skel ++
+  ["engine.StartWatches"] ++                   -- not modelled: its error is only logged, no condition depends on it
+  Phase.publish.skel ++
+  ["handleCommonCompositionResult",            -- composeOk: applyFnConds
+   "updateXRConditions",                       -- composeOk: syncedCond, readyCond
+   "client.Status.Update", "client.Status.Update"]  -- the two exits (requeue now / after the poll interval): one write, `Call.lost`
+
+/-- `updateXRConditions`: Available / ReconcileSuccess by default (readyCond, syncedCond: the `all`
+branches), ReconcileError when something is unsynced, Creating when something is unready, then the
+explicit readiness (Available / Creating), and ONE SetConditions(synced, ready) (composeOk: the two
+nested setCond) -/
+def skelUpdateXRConditions : List String :=
+  ["xpv1.Available", "xpv1.ReconcileSuccess", "xpv1.ReconcileError", "xpv1.Creating", "xpv1.Available", "xpv1.Creating",
+   "xr.SetConditions"]
+
+/-- `handleCommonCompositionResult`: the claim is looked up for events only (not modelled: events);
+per function condition the system-type filter, SetConditions, SetClaimConditionTypes (applyFnConds) -/
+def skelHandleCommon : List String :=
+  ["getClaimFromXR", "xpv1.IsSystemConditionType", "xr.SetConditions", "xr.SetClaimConditionTypes"]
 
 /-! ### Sequences of reconciles of several XRs by one long-lived reconciler
 
